@@ -14,6 +14,7 @@ Checks checksFor(const std::string& p)
 {
     Checks c;
     if (p == "C01") { c.canon = true; c.audit = false; }
+    else if (p == "C08" || p == "C20") { c.canon = true; }
     else if (p == "C02") { c.audit = true; }
     else if (p == "C06") { c.recount = true; c.allslots = true; }
     else if (p == "C07") { c.cachecount = true; c.allslots = true; }
@@ -45,6 +46,17 @@ bool Interp::produce(int dst, int f, dd_edge* e, const Table& T, const char* wha
 {
     if (!checkEdge(f, *e, T, what)) { delete e; return false; }
     Table T2 = T;
+    {
+        // "any negative value" (unreachable in MT-int distance functions): continue with the value
+        // the library chose
+        bool anyNeg = false;
+        for (auto& v : T2) if (v.t == VNEG) { anyNeg = true; break; }
+        if (anyNeg) {
+            Table got; Failure fl;
+            if (expandEdge(W, f, *e, got, fl))
+                for (size_t i = 0; i < T2.size(); i++) if (T2[i].t == VNEG) T2[i] = (got[i].t == VI && got[i].i < 0) ? got[i] : Val::Un();
+        }
+    }
     if (W.fs[f].range == 'R') {
         // real values: the library rounds (terminal precision 1e-5, float mantissa), so after the
         // result has been checked against the model within tolerance, the model continues from
